@@ -74,6 +74,23 @@ def Bay.SyncUpTo (strong : Bool) (b : Bay) (mi : Nat) (m : Mux) (P : Nat → Nat
 def Bay.MuxSync (strong : Bool) (b : Bay) (mi : Nat) (m : Mux) : Prop :=
   b.Weak mi m ∧ b.SyncUpTo strong mi m (fun _ _ => False)
 
+/-- Conditions under which `bay_propagate` cannot fail: every input is
+    connected, `selected` is in range, outputs are single DIRTY_WRITE channels
+    (`mux_init`), every select function is defined on its select channel's
+    current value, and select channels are not mux outputs (so their values do
+    not move during the propagation). -/
+structure Bay.Safe (b : Bay) : Prop where
+  inSet : ∀ (mi : Nat) (m : Mux) (i : Nat), b.muxes[mi]? = some m → i < m.inputs.length →
+    ∃ c, m.inputs[i]? = some (some c)
+  selRange : ∀ (mi : Nat) (m : Mux) (j : Nat), b.muxes[mi]? = some m → b.selOf mi = some j →
+    j < m.inputs.length
+  outOk : ∀ (mi : Nat) (m : Mux), b.muxes[mi]? = some m →
+    (b.chan m.out).isStack = false ∧ (b.chan m.out).dirtyWrite = true
+  selOk : ∀ (mi : Nat) (m : Mux), b.muxes[mi]? = some m →
+    ∃ s, m.selectInput (b.chan m.sel).cur = .ok s
+  selRaw : ∀ (mi : Nat) (m : Mux) (mj : Nat) (m' : Mux), b.muxes[mi]? = some m →
+    b.muxes[mj]? = some m' → m'.out ≠ m.sel
+
 /-- Channel operations: they either leave the channel alone or make it dirty,
     and never touch the properties. -/
 def ChanOp (f : Chan → Except Err Chan) : Prop :=
